@@ -135,6 +135,36 @@ theorem norm_run (I : Interp) : ∀ (t : Tree α) (facts : List (Q × Bool)), Co
             · simpa using hq
             · exact hc p hp)
 
+theorem lookup_none : ∀ (facts : List (Q × Bool)) (q : Q), lookup facts q = none →
+    ((facts.map (·.1)).any fun q' => Q.beq q' q) = false
+  | [], _, _ => rfl
+  | (q', b) :: r, q, h => by
+      simp only [lookup] at h
+      split at h
+      · simp at h
+      · rename_i hne
+        simp [hne, lookup_none r q h]
+
+/-- the normal form: in `norm facts t` no literal query is asked and no query is asked that the recorded answers or an earlier
+    test on the same path already settle — "a term's truthiness is asked at most once per path" -/
+theorem norm_noRepeat : ∀ (t : Tree α) (facts : List (Q × Bool)), noRepeat (facts.map (·.1)) (norm facts t) = true
+  | .leaf a, _ => rfl
+  | .test q y n, facts => by
+      simp only [norm]
+      split
+      · exact norm_noRepeat y facts
+      · exact norm_noRepeat n facts
+      · rename_i hask
+        unfold ask at hask
+        split at hask
+        · simp at hask
+        · rename_i hstat
+          have hl := lookup_none facts q hask
+          have hy := norm_noRepeat y ((q, true) :: facts)
+          have hn := norm_noRepeat n ((q, false) :: facts)
+          simp only [List.map] at hy hn
+          simp [noRepeat, hstat, hl, hy, hn]
+
 theorem norm_nil_run (I : Interp) (t : Tree α) : (norm [] t).run I = t.run I :=
   norm_run I t [] (fun _ h => by simp at h)
 
@@ -236,7 +266,7 @@ theorem act_map {D : Dom α} {E : Dom β} {f : α → β} (h : Hom D E f) (code 
     | unpack n =>
       have hs : (s.map f).stack = s.stack.map f := rfl
       rw [hs]
-      cases hst : s.stack <;> simp [St.map, Act.map, Res.map, Outcome.map, hst, h.none]
+      cases hst : s.stack <;> simp [St.map, Act.map, Res.map, Outcome.map, hst, h.none, storeTarget_map]
     | store a =>
       have hs : (s.map f).stack = s.stack.map f := rfl
       rw [hs]
